@@ -29,6 +29,7 @@ from sim import runner  # noqa: E402
 from sim.shrink import shrink  # noqa: E402
 
 DEFAULT_SEED = 20260926
+REPLAYS = os.environ.get("VERIF_REPLAY_DIR") or os.path.join(HERE, "replays")
 QUICK_RUNS = {
     "C01": 40000,
     "C12": 30000,
@@ -293,10 +294,8 @@ def main() -> int:
         small, used = shrink(plan, still_fails, simplest=getattr(w, "SIMPLEST", None), max_runs=300 if not prelude else 60)
         res = runner.hermetic(_exec_full, prelude + [small])
         msg = next((x["msg"] for x in res["violations"] if x["rule"] == rule and x["key"] == key), rec["msg"])
-        os.makedirs(os.path.join(HERE, "replays", prop), exist_ok=True)
-        path = os.path.join(
-            HERE, "replays", prop, f"{slug(rule)}-{slug(key)}-{plan['_prov']['index']}.json"
-        )
+        os.makedirs(os.path.join(REPLAYS, prop), exist_ok=True)
+        path = os.path.join(REPLAYS, prop, f"{slug(rule)}-{slug(key)}-{plan['_prov']['index']}.json")
         with open(path, "w") as f:
             json.dump(
                 {
@@ -332,8 +331,8 @@ def main() -> int:
         exit_code = 1
 
     for sv in static_viol:
-        os.makedirs(os.path.join(HERE, "replays", prop), exist_ok=True)
-        path = os.path.join(HERE, "replays", prop, f"{slug(sv['rule'])}-{slug(sv['key'])}-static.json")
+        os.makedirs(os.path.join(REPLAYS, prop), exist_ok=True)
+        path = os.path.join(REPLAYS, prop, f"{slug(sv['rule'])}-{slug(sv['key'])}-static.json")
         with open(path, "w") as f:
             json.dump({"property": prop, "static": True, **sv}, f, indent=1)
         print(f"  {sv['rule']} [{sv['key']}] (schedule-free table): {sv['msg']}")
